@@ -26,7 +26,8 @@ RULE = ('For each program (real windows, templates, snippets, layout-mutated, mu
         'from-scratch parse. Non-trivial = multi-line replacement, or a gap that touches a node boundary shared by >= 2 nodes, '
         'or multi-byte characters earlier on the line; distinct by (source, gap index, replacement).')
 ASSUMPTIONS = [
-    'gaps inside f-strings are skipped (not ordinary tokens)',
+    'inside f-strings only the gaps between two tokens of a replacement field are edited, on one line, with spaces only (delete / one / two / doubled); '
+    'the edit may change the literal text of a self-documenting field {expr = } and nothing else; gaps next to the literal parts or between two braces are skipped',
     'the node to call is chosen by pfst locations, which C06 validates against tokenize / CPython',
 ]
 
@@ -55,13 +56,47 @@ def strategy(tier):
     return strat()
 
 
+FDEBUG_PROGRAMS = (
+    "x = f'{a = !r}'", "x = f'pre {a + b = !s} post'", "x = f'{a = }'", "x = f'{a = :>5}'", "x = f'{a = !r:>5}'", "x = f'{ a . b [ c ] = !a} { d }'",
+    'x = f"{f( a , k = v ) = }{ [ p , q ] !r}"', "x = f'{a!r:{w}.{p}}' f'{ b = : { c } }'", 'x = f\'\'\'{\n a + b = !r} {c\n =}\'\'\'', "x = f'{é + ö = !r} {日 = }'",
+)
+
+
 def enumerate_cases(tier, shard, nshards, seed):
+    for j, src in enumerate(gen.FSTRING_PROGRAMS + FDEBUG_PROGRAMS):
+        if j % nshards == shard:
+            yield {'src': src, 'sel': seed * 131 + j, 'gaps': 10_000}
+
     for j, src in enumerate(gen.SYN_PROGRAMS):
         if j % nshards == shard:
             yield {'src': src, 'sel': seed * 131 + j, 'gaps': 10_000}
 
             if tier != 'quick' or j % 2:
                 yield {'src': src, 'sel': seed * 131 + j, 'gaps': 10_000, 'mb': j}
+
+
+FSTRING_TOKS = (tokenize.FSTRING_START, tokenize.FSTRING_MIDDLE, tokenize.FSTRING_END)
+
+
+def S_fdebug(tree):
+    """Structure with the literal parts of f-strings blanked: in a self-documenting field `{expr = }` the expression text, whitespace included, is
+    also the value of the preceding literal part, so a whitespace edit there changes that Constant and nothing else."""
+
+    saved = []
+
+    try:
+        for n in ast.walk(tree):
+            if isinstance(n, ast.JoinedStr):
+                for v in n.values:
+                    if isinstance(v, ast.Constant):
+                        saved.append((v, v.value))
+                        v.value = ''
+
+        return S(tree)
+
+    finally:
+        for v, val in saved:
+            v.value = val
 
 
 def splice(lines, ln, col, end_ln, end_col, text):
@@ -117,10 +152,15 @@ def execute(case, ctx):
     for gi in range((sel % step), ngaps, step):
         a, b = code[gi], code[gi + 1]
 
-        if sc.in_fstring(a[3]) or sc.in_fstring(b[2]) or a[0] in (tokenize.FSTRING_START, tokenize.FSTRING_MIDDLE) or b[0] in (tokenize.FSTRING_MIDDLE, tokenize.FSTRING_END):
-            ctx.count('gap_in_fstring_skipped')
+        in_f = False
 
-            continue
+        if sc.in_fstring(a[3]) or sc.in_fstring(b[2]) or a[0] in (tokenize.FSTRING_START, tokenize.FSTRING_MIDDLE) or b[0] in (tokenize.FSTRING_MIDDLE, tokenize.FSTRING_END):
+            if a[0] in FSTRING_TOKS or b[0] in FSTRING_TOKS or a[3][0] != b[2][0] or (a[1] == '{' and b[1] == '{') or (a[1] == '}' and b[1] == '}'):
+                ctx.count('gap_in_fstring_skipped')  # next to literal text of the f-string (not a gap between tokens of a node), or would make / break a brace escape
+
+                continue
+
+            in_f = True  # a gap between two tokens of a replacement field: spaces only (see ASSUMPTIONS)
 
         (ln, col), (end_ln, end_col) = a[3], b[2]
         gap = '\n'.join([sc.lines[ln][col:]] + sc.lines[ln + 1:end_ln] + [sc.lines[end_ln][:end_col]]) if end_ln > ln else sc.lines[ln][col:end_col]
@@ -132,6 +172,10 @@ def execute(case, ctx):
         line = sc.lines[ln]
         ind = ' ' * (len(line) - len(line.lstrip()) + 4)
         reps = ['', ' ', '  ', '\t', gap + gap, ' \\\n' + ind, '\n' + ind, '  # c\n' + ind]
+
+        if in_f:
+            reps = ['', ' ', '  ', gap + gap + ' ']
+            ctx.count('gaps_in_fstring_fields')
 
         if '\n' in gap:
             i = gap.index('\n')
@@ -165,7 +209,13 @@ def execute(case, ctx):
 
                 continue
 
-            if S(ref) != old_S:
+            if in_f:
+                if S_fdebug(ref) != S_fdebug(old_tree):
+                    ctx.count('discard:splice_changes_structure')
+
+                    continue
+
+            elif S(ref) != old_S:
                 ctx.count('discard:splice_changes_structure')
 
                 continue
